@@ -131,7 +131,7 @@ def run_case(sc: Dict[str, Any]) -> Outcome:
     nonsucc = 0
     for i in range(nh):
         sp = specs[i]
-        if not wh.is_good(sp) or sp["out"] != "ret" or (sp.get("timeout") is not None and sp["kind"] == "async" and sp["dur"] > float(sp["timeout"])):
+        if not wh.is_good(sp) or sp["out"] != "ret" or wh.timeout_verdict(sp) == "timeout":
             nonsucc += 1
     hookfail = any(e[1] in HOOKNAMES for e in tr) and any(hs.get("fail_on") for mw in sc["mws"] for hs in mw.values())
     savefail = any(e[1] == "save_failed" for e in tr)
